@@ -146,6 +146,14 @@ func TestC01Determinism(t *testing.T) {
 				}
 				lastEpoch = uint64(view.Epoch)
 			}
+			if ups, err := view.Gov.PendingUpgrades(view.Ctx()); err == nil {
+				for _, u := range ups {
+					if u.Epoch == view.Epoch+1 && view.FutureEpochHeight() == sim.E.Height {
+						// the next block is the upgrade block of a pending upgrade (handler runs in BeginBlock and EndBlock)
+						rec.Label("upgrade-block:handler=" + firstWords(string(u.Handler), 1))
+					}
+				}
+			}
 			bg := sim.GenBlock(t, view, ev.Pick(8, 12))
 			view.Close()
 			b := bg.Block
